@@ -40,6 +40,8 @@ ASSUMPTIONS = [
 @st.composite
 def _param(draw, numeric_only, sym_kw):
     if numeric_only or draw(st.integers(0, 9)) < 4:
+        if draw(st.integers(0, 7)) == 0:
+            return draw(cgen.python_complex())
         return draw(cgen.python_numbers())
     r = draw(st.integers(0, 9))
     if r < 4:
@@ -67,6 +69,9 @@ def serde_gate(draw, maxq, tier, mods_pool=("dag", "c", "pow", "exp")):
     else:
         nm = draw(st.sampled_from([n for n in cgen.NAMES if cgen.TABLE[n][0] <= maxq]))
         spec = {"g": nm, "p": [draw(_param(numeric_only, sym_kw)) for _ in range(cgen.TABLE[nm][1])]}
+    if "I" in cgen.expr_symbols(["x"] + spec["p"]):
+        # the text "2.5j" next to a symbol named I cannot tell the imaginary unit from the symbol (textual format)
+        spec["p"] = [p[1] if isinstance(p, list) and p[0] == "cplx" else p for p in spec["p"]]
     k = cgen.base_arity(spec)
     mods = []
     for w in ws:
@@ -82,6 +87,8 @@ def serde_gate(draw, maxq, tier, mods_pool=("dag", "c", "pow", "exp")):
         else:
             mods.append(["exp"])
     spec["mods"] = mods
+    if mods and draw(st.integers(0, 3)) == 0:
+        spec["raw"] = True  # nest the public wrapper classes directly instead of calling .controlled() / .dagger / ...
     return spec
 
 
@@ -170,6 +177,16 @@ def param_equal(spec_p, p, q, vseed, exact=True):
     """spec_p: parameter spec; p: built original; q: reloaded. exact=False: p went through a
     sympy Float already (second trip), where the statement promises 1e-12 relative."""
     if not cgen.is_symbolic(spec_p):
+        if isinstance(spec_p, list):  # a Python complex (on a second trip: the sympy number it was reloaded as)
+            try:
+                if isinstance(q, sympy.Basic) and q.free_symbols:
+                    return False, "complex number reloaded as an expression with symbols"
+                z, zp = complex(q), complex(p)
+            except (TypeError, ValueError):
+                return False, f"Python complex {p!r} reloaded as {q!r}"
+            if not exact:
+                return abs(z - zp) <= 1e-12 * abs(zp), f"complex number {p!r} reloaded as {q!r} on the second trip"
+            return (z == zp), f"Python complex {p!r} reloaded as {q!r}"
         try:
             if not exact and not (isinstance(q, sympy.Basic) and q.free_symbols):
                 return abs(float(q) - float(p)) <= 1e-12 * abs(float(p)), f"number {p!r} reloaded as {q!r} on the second trip"
@@ -258,6 +275,10 @@ def classes_of(spec):
                 cl.add("bare_symbol" if p[0] in ("sym", "idx") else "expression")
             elif isinstance(p, float):
                 cl.add("float_param")
+            elif isinstance(p, list):
+                cl.add("complex_param")
+        if o.get("raw"):
+            cl.add("raw_wrapper_classes")
         names |= set(syms)
         if any("[" in s for s in syms):
             cl.add("indexed_symbol")
